@@ -189,6 +189,10 @@ def run(ctx) -> None:
     ctx.explanation = EXPLANATION
     dtm, dm = pmod("datetime"), pmod("date")
     AD.month_clamp_order(ctx)
+    from . import C15
+    C15.clamp_dependencies(ctx)
+    from . import C09
+    C09._duration_new(ctx)      # `+ Duration` shifts by d.years/months/weeks/remaining_days: the breakdown computed in Duration.__new__
     AD.carry_blocks(ctx)
     AD.datetime_add_shape(ctx)
     AD.neg_symmetry(ctx, dtm, "DateTime")
